@@ -12,6 +12,13 @@ All statements hold for every `Env` / `DEnv`, i.e. whatever the odML constructor
 -/
 import OdmlModel.Model.Reader
 import OdmlModel.Proofs.Reader
+import OdmlModel.Proofs.ReaderSpec
+import OdmlModel.Proofs.ReaderDenote
+import OdmlModel.Proofs.ReaderWF
+import OdmlModel.Proofs.ReaderDictSpec
+import OdmlModel.Proofs.ReaderDictDenote
+import OdmlModel.Proofs.ReaderDictFull
+import OdmlModel.Proofs.ReaderCount
 
 set_option linter.unusedSimpArgs false
 
@@ -330,5 +337,339 @@ def topCount : Except Err (Obj J × Nat) → Option Nat
 theorem original_dict_drops_valid_section :
     topCount (readDict { Guards.fixed with perChildAppend := false } denv0 .lenient dupProps) = some 0 ∧
     topCount (readDict Guards.fixed denv0 .lenient dupProps) = some 1 := by decide
+
+/-! ## 4. Nesting depth and the interpreter's stack
+
+A `RecursionError` is neither a Document nor a ParserException. The XML reader recurses once per
+nested object with three frames (`stackTag`), libxml2 accepts at most 256 nested elements and
+Python allows 1000 frames: whatever the tree, the reader's own frames stay below the limit as long
+as the caller and the library code below the innermost `parse_tag` (constructors, lxml callbacks)
+together need at most 222 frames (measured by the harness on every deep tie case: at most 17). -/
+
+/-- libxml2 without `XML_PARSE_HUGE` ("Excessive depth in document: 256" for the 257th level) -/
+def libxmlMaxDepth : Nat := 256
+/-- CPython's default `sys.getrecursionlimit()` -/
+def pyRecursionLimit : Nat := 1000
+
+theorem readerStack_le_depth (x : Xml) : readerStack x ≤ 3 * Xml.depth x + 9 := by
+  have h := stack_le_depth.1 x .doc
+  simp only [readerStack, helperFrames]
+  omega
+
+/-- Every tree libxml2 can hand to the reader is parsed within the recursion limit. -/
+theorem nesting_within_recursion_limit (x : Xml) (h : Xml.depth x ≤ libxmlMaxDepth)
+    (caller inner : Nat) (hc : caller + inner ≤ 222) :
+    caller + readerStack x + inner < pyRecursionLimit := by
+  have h1 := readerStack_le_depth x
+  simp only [libxmlMaxDepth] at h
+  simp only [pyRecursionLimit]
+  omega
+
+/-- `n` Sections inside each other -/
+def nestKids : Nat → List Xml
+  | 0 => []
+  | n + 1 => [.elem "section".toList [] none (nestKids n)]
+
+/-- a document with a chain of `n` nested Sections -/
+def nestDoc (n : Nat) : Xml :=
+  .elem "odML".toList [("version".toList, Gen.Format.formatVersion.toList)] none (nestKids n)
+
+theorem stackKids_nestKids (kind : Kind) (hk : kind = .doc ∨ kind = .sec) (n : Nat) :
+    stackKids kind (nestKids n) = 3 * n := by
+  induction n generalizing kind with
+  | zero => simp [nestKids, stackKids]
+  | succ n ih =>
+    have a1 : isArgKey kind (Py.lower "section".toList) = true := by
+      rcases hk with h | h <;> subst h <;> decide
+    have a2 : kindOfTag (Py.lower "section".toList) = some .sec := by decide
+    have a3 : inMapKeys kind (Py.lower "section".toList) = true := by
+      rcases hk with h | h <;> subst h <;> decide
+    simp only [nestKids, stackKids, a1, a2, a3, stackTag, framesPerObject, ih .sec (Or.inr rfl)]
+    omega
+
+/-- The bound of `stack_le_depth` is attained: a chain of `n` Sections costs three frames per
+    level (so a fourth frame per level would need `4 * 256 > 1000` frames below libxml2's limit). -/
+theorem chain_needs_three_per_level (n : Nat) :
+    stackTag .doc (nestDoc n) = 3 * Xml.depth (nestDoc n) ∧ Xml.depth (nestDoc n) = n + 1 := by
+  have hd : ∀ n, Xml.depthList (nestKids n) = n := by
+    intro n
+    induction n with
+    | zero => simp [nestKids, Xml.depthList]
+    | succ n ih => simp only [nestKids, Xml.depthList, Xml.depth, ih]; omega
+  simp only [nestDoc, stackTag, Xml.depth, framesPerObject, stackKids_nestKids .doc (Or.inl rfl) n, hd n]
+  omega
+
+/-! ## 5. What a read returns, as a statement about the whole returned tree (XML reader)
+
+`Reader.denoteTag` (`Proofs/ReaderDenote.lean`) is the specification of "the valid parts of the
+input": every Section / Property element becomes the object its argument elements describe (the
+default object when the constructor refuses them) and is attached to its parent unless the parent
+cannot hold that sort or an earlier kept sibling of its sort carries its name
+(`Reader.keepValid` / `Reader.kept`) — recursively, for trees of any depth. `Reader.tagProblems`
+counts what the reader objects to, `Reader.tagRepeats` the "given multiple times" warnings (a
+warning in both modes). `Reader.fullTag` is the input's full content: all children attached. -/
+
+/-- the valid parts of a document tree -/
+def validParts (env : Env) (x : Xml) : Obj Str := denoteTag env .doc true x
+/-- the number of problems of a document tree (calls of `self.error`) -/
+def problems (env : Env) (x : Xml) : Nat := tagProblems env .doc true "odML".toList x
+/-- the number of "given multiple times" warnings -/
+def repeats (env : Env) (x : Xml) : Nat := tagRepeats env .doc x
+/-- the full content of a document tree: every Section and Property element, none left out -/
+def fullContent (env : Env) (x : Xml) : Obj Str := fullTag env .doc true x
+
+theorem readXml_eq_outcome (env : Env) (m : Mode) (x : Xml) (h : RootOk x) :
+    readXml Guards.fixed env m x
+      = outcome m (problems env x) (validParts env x, problems env x + repeats env x) := by
+  cases x with
+  | other k => simp [RootOk, rootVerdict] at h
+  | elem tag attrs text kids =>
+    have ht : tag = "odML".toList := by
+      by_cases hq : tag = "odML".toList
+      · exact hq
+      · exfalso
+        have hn : rootVerdict (.elem tag attrs text kids) = .notOdml := by
+          simp only [rootVerdict]
+          rw [if_pos (bne_iff_ne.mpr hq)]
+        rw [RootOk, hn] at h
+        cases h
+    subst ht
+    unfold readXml
+    rw [h]
+    simp only [parseRoot, problems, validParts, repeats]
+    rw [parseTag_spec _ Guards.fixed_xmlOk]
+    exact outcome_congr m rfl (by congr 1; omega)
+
+/-- **`lenient_keeps_valid_parts`, whole tree.** A lenient read of well-formed XML with a current
+    odML root returns exactly the valid parts of the input — nothing valid is lost, nothing else is
+    added, at any depth — and has recorded one warning per problem (plus one per repeated element). -/
+theorem lenient_returns_valid_parts (env : Env) (x : Xml) (h : RootOk x) :
+    readXml Guards.fixed env .lenient x
+      = .ok (validParts env x, problems env x + repeats env x) := by
+  rw [readXml_eq_outcome env .lenient x h, outcome_lenient]
+
+/-- Strict mode: the same document if the input has no problem, ParserException otherwise. -/
+theorem strict_returns_valid_parts_or_raises (env : Env) (x : Xml) (h : RootOk x) :
+    readXml Guards.fixed env .strict x
+      = if problems env x = 0 then .ok (validParts env x, repeats env x)
+        else .error .parserException := by
+  rw [readXml_eq_outcome env .strict x h]
+  by_cases hp : problems env x = 0
+  · simp only [hp, outcome_zero, if_true, Nat.zero_add]
+  · simp only [hp, if_false]
+    exact outcome_strict_pos _ _ hp
+
+/-- Whatever strict mode returns, lenient mode returns too (same document, same warnings). -/
+theorem strict_result_is_lenient_result (env : Env) (x : Xml) (r : Obj Str × Nat)
+    (h : readXml Guards.fixed env .strict x = .ok r) : readXml Guards.fixed env .lenient x = .ok r := by
+  have hr : RootOk x := by
+    unfold readXml at h
+    unfold RootOk
+    cases hv : rootVerdict x <;> rw [hv] at h <;> first | rfl | cases h
+  rw [strict_returns_valid_parts_or_raises env x hr] at h
+  rw [lenient_returns_valid_parts env x hr]
+  by_cases hp : problems env x = 0
+  · simp only [hp, if_true] at h
+    rw [hp, Nat.zero_add]
+    exact h
+  · simp only [hp, if_false] at h
+    cases h
+
+/-- **Nothing invalid ⇒ lenient = strict = the full content.** For an input without a problem both
+    modes return the document with *every* Section and Property of the input, in document order. -/
+theorem valid_input_read_in_full (env : Env) (x : Xml) (h : RootOk x) (hv : problems env x = 0) :
+    readXml Guards.fixed env .lenient x = .ok (fullContent env x, repeats env x) ∧
+    readXml Guards.fixed env .strict x = .ok (fullContent env x, repeats env x) := by
+  have hf : validParts env x = fullContent env x := denote_eq_full env x .doc true _ hv
+  rw [lenient_returns_valid_parts env x h, strict_returns_valid_parts_or_raises env x h, hv, hf]
+  simp
+
+/-- **`reader_output_wf`, whole tree.** Every document the XML reader returns, in either mode, is a
+    well-formed tree at every level: non-empty names, pairwise different names among sibling
+    Sections and among sibling Properties, Sections in Section lists and Properties in Property
+    lists, no children below a Property, no Property directly in the Document. -/
+theorem returned_document_wf (env : Env) (he : env.NamesOk) (m : Mode) (x : Xml) (d : Obj Str)
+    (w : Nat) (h : readXml Guards.fixed env m x = .ok (d, w)) :
+    TreeWF (· == ·) strOk d ∧ d.kind = .doc := by
+  have hr : RootOk x := by
+    unfold readXml at h
+    unfold RootOk
+    cases hv : rootVerdict x <;> rw [hv] at h <;> first | rfl | cases h
+  have hl := strict_result_is_lenient_result env x (d, w)
+  have hd : d = validParts env x := by
+    cases m with
+    | lenient =>
+      rw [lenient_returns_valid_parts env x hr] at h
+      cases h; rfl
+    | strict =>
+      have := hl h
+      rw [lenient_returns_valid_parts env x hr] at this
+      cases this; rfl
+  subst hd
+  refine ⟨denote_wf env he x .doc true, ?_⟩
+  cases x with
+  | other k => rfl
+  | elem t a tx ks =>
+    simp only [validParts, denoteTag, attach, if_true, keepValid]
+    obtain ⟨n, b, hc, _⟩ := created_shape env .doc (specArgs env .doc ks [])
+    rw [hc]
+    rfl
+
+/-- the hypothesis on `Env` is satisfiable: constructors that never invent an empty name -/
+example : env0.NamesOk := by intro k a s h; cases h
+/-- … or hand out a non-empty id as the name of an object created without one -/
+example : (⟨fun _ => false, fun _ _ => false, fun _ _ => .given "4f2a".toList⟩ : Env).NamesOk := by
+  intro k a s h; cases h; decide
+
+/-- Two Sections `a` (the second with a Subsection), then a valid Section `c` with a Property:
+    the second `a` is the one problem, everything else is returned. -/
+def dupThenValid : Xml :=
+  docX [secX "a" [], secX "a" [secX "b" []],
+        secX "c" [.elem "property".toList [] none [leaf "name" "p"]]]
+
+example : RootOk dupThenValid := by unfold RootOk; decide
+example : problems env0 dupThenValid = 1 := by decide
+example : ((validParts env0 dupThenValid).secs.map (·.name)) = [.given "a".toList, .given "c".toList] := by
+  decide
+
+/-- a document without a problem, two levels deep -/
+def cleanDoc : Xml :=
+  docX [secX "a" [secX "b" [], .elem "property".toList [] none [leaf "name" "p"]], secX "c" []]
+
+example : RootOk cleanDoc := by unfold RootOk; decide
+example : problems env0 cleanDoc = 0 := by decide
+
+/-! ## 6. What a read returns, whole tree (dictionary reader: JSON / YAML)
+
+`Reader.dDoc` (`Proofs/ReaderDictSpec.lean`, `ReaderDictDenote.lean`) is the specification of the valid
+parts of a `Document` dictionary: every dictionary entry of a `sections` list whose Section the
+constructor accepts, with the valid parts of its `properties` and `sections` attached unless an
+earlier kept sibling of the sort has the name; every dictionary entry of a `properties` list
+whose Property the constructor accepts; nothing else — recursively, any depth.
+`Reader.docProblems` counts the calls of `self.error`. -/
+
+theorem dictRootOk_of_ok (m : Mode) (env : DEnv) (x : J) (r : Obj J × Nat)
+    (h : readDict Guards.fixed env m x = .ok r) : DictRootOk x := by
+  have hv := dictVerdict_fixed Guards.fixed rfl x
+  unfold readDict at h
+  cases hd : dictVerdict Guards.fixed x with
+  | leak l => rw [hd] at h; cases h
+  | refused => rw [hd] at h; cases h
+  | wrongVersion => rw [hd] at h; cases h
+  | ok d =>
+    obtain ⟨kvs, hk⟩ := hv.2 d hd
+    subst hk
+    exact ⟨kvs, hd⟩
+
+theorem readDict_eq_outcome (env : DEnv) (m : Mode) (x : J) (kvs : List (Str × J))
+    (h : dictVerdict Guards.fixed x = .ok (.obj kvs)) :
+    readDict Guards.fixed env m x
+      = outcome m (docProblems env kvs) (dDoc env kvs, docProblems env kvs) := by
+  unfold readDict
+  rw [h]
+  exact readDoc_spec _ Guards.fixed_dictOk env m kvs
+
+/-- **Lenient dictionary read, whole tree**: for a dictionary with a `Document` dictionary `kvs`
+    and the current version, exactly the valid parts are returned, one warning per problem. -/
+theorem dict_lenient_returns_valid_parts (env : DEnv) (x : J) (kvs : List (Str × J))
+    (h : dictVerdict Guards.fixed x = .ok (.obj kvs)) :
+    readDict Guards.fixed env .lenient x = .ok (dDoc env kvs, docProblems env kvs) := by
+  rw [readDict_eq_outcome env .lenient x kvs h, outcome_lenient]
+
+/-- Strict mode: the same document (all of the input, no warning) if there is no problem,
+    ParserException otherwise. -/
+theorem dict_strict_returns_valid_parts_or_raises (env : DEnv) (x : J) (kvs : List (Str × J))
+    (h : dictVerdict Guards.fixed x = .ok (.obj kvs)) :
+    readDict Guards.fixed env .strict x
+      = if docProblems env kvs = 0 then .ok (dDoc env kvs, 0) else .error .parserException := by
+  rw [readDict_eq_outcome env .strict x kvs h]
+  by_cases hp : docProblems env kvs = 0
+  · simp only [hp, outcome_zero, if_true]
+  · simp only [hp, if_false]
+    exact outcome_strict_pos _ _ hp
+
+/-- Whatever strict mode returns, lenient mode returns too. -/
+theorem dict_strict_result_is_lenient_result (env : DEnv) (x : J) (r : Obj J × Nat)
+    (h : readDict Guards.fixed env .strict x = .ok r) : readDict Guards.fixed env .lenient x = .ok r := by
+  obtain ⟨kvs, hk⟩ := dictRootOk_of_ok .strict env x r h
+  rw [dict_strict_returns_valid_parts_or_raises env x kvs hk] at h
+  rw [dict_lenient_returns_valid_parts env x kvs hk]
+  by_cases hp : docProblems env kvs = 0
+  · simp only [hp, if_true] at h
+    rw [hp]
+    exact h
+  · simp only [hp, if_false] at h
+    cases h
+
+/-- **`reader_output_wf`, whole tree, dictionary reader**: every returned document is well-formed
+    at every level (truthy names, pairwise different sibling names per sort, sorts in their lists,
+    nothing below a Property, no Property directly in the Document). -/
+theorem dict_returned_document_wf (env : DEnv) (he : env.NamesOk) (m : Mode) (x : J) (d : Obj J)
+    (w : Nat) (h : readDict Guards.fixed env m x = .ok (d, w)) :
+    TreeWF J.pyEq J.truthy d ∧ d.kind = .doc := by
+  obtain ⟨kvs, hk⟩ := dictRootOk_of_ok m env x (d, w) h
+  have hd : d = dDoc env kvs := by
+    cases m with
+    | lenient =>
+      rw [dict_lenient_returns_valid_parts env x kvs hk] at h
+      cases h; rfl
+    | strict =>
+      have := dict_strict_result_is_lenient_result env x (d, w) h
+      rw [dict_lenient_returns_valid_parts env x kvs hk] at this
+      cases this; rfl
+  subst hd
+  exact dDoc_wf env he kvs
+
+example : denv0.NamesOk := by intro k a j h; cases h
+example : (⟨fun _ _ => false, fun _ _ => .given (jstr "4f2a")⟩ : DEnv).NamesOk := by
+  intro k a j h; cases h; decide
+
+/-- `dupProps`: Section `a` with Properties `p`, `p` and Subsection `b` — one problem (the second
+    `p`); the returned Section keeps one Property and the Subsection. -/
+example : docProblems denv0
+    [("sections".toList, .arr [secJ "a"
+      [("properties".toList, .arr [.obj [("name".toList, jstr "p")], .obj [("name".toList, jstr "p")]]),
+       ("sections".toList, .arr [secJ "b" []])]])] = 1 := by decide
+
+/-- **Nothing invalid ⇒ lenient = strict = the full content (dictionary reader).** For a `Document`
+    dictionary without a problem both modes return the document in which *every* dictionary entry
+    of every `sections` / `properties` list is a Section / Property (`Reader.dDocFull`), without a
+    warning. -/
+theorem dict_valid_input_read_in_full (env : DEnv) (x : J) (kvs : List (Str × J))
+    (h : dictVerdict Guards.fixed x = .ok (.obj kvs)) (hv : docProblems env kvs = 0) :
+    readDict Guards.fixed env .lenient x = .ok (dDocFull env kvs, 0) ∧
+    readDict Guards.fixed env .strict x = .ok (dDocFull env kvs, 0) := by
+  rw [dict_lenient_returns_valid_parts env x kvs h, dict_strict_returns_valid_parts_or_raises env x kvs h,
+    hv, dDoc_eq_full env kvs hv]
+  simp
+
+/-- **Every object constructed once (XML reader).** A returned document has at most as many objects
+    as the read made constructor calls (`callsTag`, the calls the harness replays on the real
+    constructors, one per object element of the input): no object of the tree is there twice. -/
+theorem returned_objects_le_constructor_calls (env : Env) (m : Mode) (x : Xml) (d : Obj Str) (w : Nat)
+    (h : readXml Guards.fixed env m x = .ok (d, w)) :
+    Obj.count d ≤ (callsTag Guards.fixed env .doc x).length := by
+  have hr : RootOk x := by
+    unfold readXml at h
+    unfold RootOk
+    cases hv : rootVerdict x <;> rw [hv] at h <;> first | rfl | cases h
+  have hd : d = validParts env x := by
+    cases m with
+    | lenient =>
+      rw [lenient_returns_valid_parts env x hr] at h
+      cases h; rfl
+    | strict =>
+      have := strict_result_is_lenient_result env x (d, w) h
+      rw [lenient_returns_valid_parts env x hr] at this
+      cases this; rfl
+  subst hd
+  cases x with
+  | other k => simp [RootOk, rootVerdict] at hr
+  | elem t a tx ks =>
+    exact denote_count_le_calls _ Guards.fixed_xmlOk env _ .doc true ⟨_, _, _, _, rfl⟩
+
+/-- two Sections `a`: three constructor calls (Document, `a`, `a`), two objects returned -/
+example : Obj.count (validParts env0 dupSections) = 2 := by decide
+example : (callsTag Guards.fixed env0 .doc dupSections).length = 3 := by decide
 
 end C16
